@@ -301,6 +301,26 @@ pub fn oracle(line: &str) -> String {
     let got = crate::ops::run_line(line);
     let want = expected(ncs, &macs);
     if got == want {
+        // a HISTORY on one shared layer set: an import that fails after it has created this library's layers (the same
+        // library plus a last macro with a coordinate that is not a whole number of raw units), then the good import through
+        // the same layer set — it must give exactly what the fresh import gave
+        if want != "err" && !macs.is_empty() {
+            let good = to_leflib(ncs, &macs);
+            let mut bad = good.clone();
+            let mut m = bad.macros[0].clone();
+            m.name = "zz_fails".into();
+            m.size = Some((lef21::LefDecimal::new(2000005, 5), lef21::LefDecimal::new(1, 0)));
+            bad.macros.push(m);
+            let shared = layout21raw::utils::Ptr::new(raw::Layers::default());
+            let first = std::panic::catch_unwind(std::panic::AssertUnwindSafe(|| raw::lef::LefImporter::import(&bad, Some(shared.clone()))));
+            match first { Ok(Err(_)) => {}, Ok(Ok(_)) => return "fail a macro size of 20.00005 microns was imported without error".into(), Err(_) => return "fail import panicked on a non-integral size".into() }
+            let second = match std::panic::catch_unwind(std::panic::AssertUnwindSafe(|| raw::lef::LefImporter::import(&good, Some(shared.clone())))) {
+                Ok(Ok(lib)) => lib_result(&lib), Ok(Err(_)) => "err".into(), Err(_) => "panic".into() };
+            if second != want {
+                let i = second.bytes().zip(want.bytes()).position(|(a, b)| a != b).unwrap_or(second.len().min(want.len()));
+                return format!("fail after a failed import into the same layer set the import differs at char {}: got …{}… want …{}…", i, &second[i.saturating_sub(20)..second.len().min(i + 40)], &want[i.saturating_sub(20)..want.len().min(i + 40)]);
+            }
+        }
         "pass".into()
     } else if want == "err" {
         format!("fail expected an error (non-integral coordinate or unsupported feature), got {}", &got[..got.len().min(100)])
